@@ -983,7 +983,7 @@ def evaluate__codepoints_to_string(
 
     result = []
     value: Union[ta.ItemType, int]
-    for value in self[0].select(context):
+    for value in self[0].atomization(context):
         if isinstance(value, UntypedAtomic):
             value = int(value)
 
